@@ -1,13 +1,14 @@
 import SqlProofs.FilterSpec
 import SqlProofs.StripCommentsSpec
+import SqlProofs.CaseRelex
 /-!
 # C08 — targeted filters change exactly their target tokens and nothing else
 
 Token filters are maps over the token stream: exactly the targeted tokens change, all others are identical and in order; idempotence of the map
 follows from idempotence of the case conversion (an assumption about `str.upper/lower/capitalize`, validated on every code point by stream S-CASE).
 `strip_comments`: on trees whose Comment groups contain only comment/whitespace leaves (what grouping builds) every leaf that is neither a comment
-nor whitespace survives in order and unchanged.  End-to-end claims (no fusing of neighbours, idempotence of `format`) need the lexical bridge and are
-checked by the oracle; known findings: KF-C08-1 (`select x/*c*/as y` → `select xas y`), KF-C08-2 (cross-statement idempotence), KF-C08-3 (output_format
+nor whitespace survives in order and unchanged.  The lexical bridge for the two case filters is proved below (`keyword_case_output_relexes`, `identifier_case_output_relexes`,
+text-level idempotence); for the other filters end-to-end claims are checked by the oracle; known findings: KF-C08-1 (`select x/*c*/as y` → `select xas y`), KF-C08-2 (cross-statement idempotence), KF-C08-3 (output_format
 loses filter effects inside groups).
 -/
 namespace Sql.C08
@@ -29,5 +30,81 @@ theorem strip_comments_keeps_everything_else : type_of% @stripComments_preserves
 comment siblings (`noNhPairs`; the exception is known finding KF-C08-6: a comment pair at the start of a list or after `(`) -/
 theorem strip_comments_only_hints_remain : type_of% @stripComments_only_hints_remain := @stripComments_only_hints_remain
 theorem strip_comments_level_survivors : type_of% @stripCommentsLevel_survivors := @stripCommentsLevel_survivors
+
+
+/-! ## the lexical bridge for the case filters: the output text lexes to exactly the filtered tokens
+
+`asciiFold` = ASCII upper-casing of a code point (SqlProofs/LexWords.lean); two values with equal `map asciiFold` differ only in the case
+of ASCII letters (and have the same length).  `lex_ascii_case_invariant` (SqlProofs/LexCase.lean): re-casing ASCII letters anywhere in a
+text — inside strings, comments, names, keywords — changes no token boundary and no token type, because every class of the generated rule
+table is closed under ASCII case, back-references compare through `_sre.unicode_tolower`, and `is_keyword` upper-cases its argument.
+
+NOT covered (hypothesis `hcase` false): values containing non-ASCII letters whose `str.upper/lower/capitalize` is not a one-to-one
+re-casing inside the same classes — `ß`→`SS`, `ŉ`→`ʼN`, `ﬁ`→`FI` (length changes; still one Name when re-lexed) and, genuinely breaking,
+`ǰ`→`J`+U+030C: `format('select ǰx', identifier_case='upper')` gives `select J̌X`, which the real lexer re-lexes as `Name J`,
+`Error U+030C`, `Name X` (the combining caron is not a `\\w` character): one token becomes three. -/
+
+/-- **re-casing ASCII letters never moves a token boundary or changes a token type**: if `s'` and `s` differ only in the case of ASCII
+letters, the tokens of `s'` are the tokens of `s` with the values read from `s'` (`reslice`) -/
+theorem lex_ascii_case_invariant (s s' : Array Cp) (h : s'.toList.map asciiFold = s.toList.map asciiFold)
+    (ts : List Tok) (hl : lex defaultCfg s = .ok ts) :
+    lex defaultCfg s' = .ok (reslice s'.toList ts) ∧ (reslice s'.toList ts).map (·.tt) = ts.map (·.tt) :=
+  ⟨Sql.lex_ascii_case_invariant s s' h ts hl, reslice_types ts _⟩
+
+/-- on ASCII values `upper`, `lower` and `capitalize` change only the case of letters -/
+theorem case_conversion_ascii (c : CaseConv) (v : Text) (h : ∀ x ∈ v, x < 128) :
+    (c.apply v).map asciiFold = v.map asciiFold := caseConv_ascii c v h
+
+/-- **`keyword_case`: the output text lexes to exactly the filtered tokens** (nothing fused, nothing split, same types), whenever the
+filter changed only ASCII case — in particular for every ASCII text (`keyword_case_output_relexes_ascii`) -/
+theorem keyword_case_output_relexes (c : CaseConv) (s : Array Cp) (ts : List Tok) (hl : lex defaultCfg s = .ok ts)
+    (hcase : ∀ t ∈ ts, (kwCaseTok c t).val.map asciiFold = t.val.map asciiFold) :
+    lex defaultCfg (stmtText (keywordCaseFilter c ts)).toArray = .ok (keywordCaseFilter c ts) :=
+  kwcase_relex c s ts hl hcase
+
+theorem keyword_case_output_relexes_ascii (c : CaseConv) (s : Array Cp) (ts : List Tok) (hl : lex defaultCfg s = .ok ts)
+    (hascii : ∀ x ∈ s.toList, x < 128) :
+    lex defaultCfg (stmtText (keywordCaseFilter c ts)).toArray = .ok (keywordCaseFilter c ts) :=
+  kwcase_relex c s ts hl (fun t ht => kwCaseTok_ascii c t (ascii_tokens s ts hl hascii t ht))
+
+/-- **`identifier_case`: the output text lexes to exactly the filtered tokens** -/
+theorem identifier_case_output_relexes (c : CaseConv) (s : Array Cp) (ts ts' : List Tok) (hl : lex defaultCfg s = .ok ts)
+    (hf : identifierCaseFilter c ts = .ok ts')
+    (hcase : ∀ t ∈ ts, ∀ t', idCaseTok c t = .ok t' → t'.val.map asciiFold = t.val.map asciiFold) :
+    lex defaultCfg (stmtText ts').toArray = .ok ts' :=
+  idcase_relex c s ts ts' hl hf hcase
+
+theorem identifier_case_output_relexes_ascii (c : CaseConv) (s : Array Cp) (ts ts' : List Tok) (hl : lex defaultCfg s = .ok ts)
+    (hf : identifierCaseFilter c ts = .ok ts') (hascii : ∀ x ∈ s.toList, x < 128) :
+    lex defaultCfg (stmtText ts').toArray = .ok ts' :=
+  idcase_relex c s ts ts' hl hf (fun t ht t' h' => idCaseTok_ascii c t t' (ascii_tokens s ts hl hascii t ht) h')
+
+/-- **text-level idempotence of `keyword_case` alone**: lexing the output and filtering again reproduces the output text
+(from the lexical bridge and the token-level idempotence; `hc` = idempotence of the string conversion, as in `keyword_case_idempotent`) -/
+theorem keyword_case_text_idempotent (c : CaseConv) (hc : ∀ v, c.apply (c.apply v) = c.apply v) (s : Array Cp) (ts : List Tok)
+    (hl : lex defaultCfg s = .ok ts)
+    (hcase : ∀ t ∈ ts, (kwCaseTok c t).val.map asciiFold = t.val.map asciiFold) :
+    ∃ ts1, lex defaultCfg (stmtText (keywordCaseFilter c ts)).toArray = .ok ts1 ∧
+      stmtText (keywordCaseFilter c ts1) = stmtText (keywordCaseFilter c ts) :=
+  kwcase_text_idem c hc s ts hl hcase
+
+/-- **text-level idempotence of `identifier_case` alone**: the second run sees exactly the tokens the first produced, so its result is the
+map applied twice (`identifier_case_idempotent` then gives equality under that theorem's hypotheses on the conversion) -/
+theorem identifier_case_text_second_run (c : CaseConv) (s : Array Cp) (ts ts' ts'' : List Tok) (hl : lex defaultCfg s = .ok ts)
+    (hf : identifierCaseFilter c ts = .ok ts')
+    (hcase : ∀ t ∈ ts, ∀ t', idCaseTok c t = .ok t' → t'.val.map asciiFold = t.val.map asciiFold)
+    (hf2 : identifierCaseFilter c ts' = .ok ts'') :
+    ∃ ts1, lex defaultCfg (stmtText ts').toArray = .ok ts1 ∧ identifierCaseFilter c ts1 = .ok ts'' :=
+  ⟨ts', idcase_relex c s ts ts' hl hf hcase, hf2⟩
+
+/-- non-vacuity: `select a from b` with `keyword_case=upper` — the output `SELECT a FROM b` lexes to the four filtered tokens + blanks -/
+example : lex defaultCfg (stmtText (keywordCaseFilter .upper
+      ((lex defaultCfg #[115, 101, 108, 101, 99, 116, 32, 97, 32, 102, 114, 111, 109, 32, 98]).toOption.getD []))).toArray
+    = .ok (keywordCaseFilter .upper ((lex defaultCfg #[115, 101, 108, 101, 99, 116, 32, 97, 32, 102, 114, 111, 109, 32, 98]).toOption.getD [])) := by
+  obtain ⟨ts, hts⟩ : ∃ ts, lex defaultCfg #[115, 101, 108, 101, 99, 116, 32, 97, 32, 102, 114, 111, 109, 32, 98] = .ok ts := by
+    obtain ⟨ts, h, _⟩ := lex_scan defaultCfg defaultRulesOK #[115, 101, 108, 101, 99, 116, 32, 97, 32, 102, 114, 111, 109, 32, 98]
+    exact ⟨ts, h⟩
+  rw [hts]
+  exact keyword_case_output_relexes_ascii .upper _ ts hts (by decide)
 
 end Sql.C08
